@@ -704,4 +704,11 @@ def Sys.flush (s : Sys) (choices : List String) : Sys × List String :=
   let st := st.tick
   (st.sys, st.trace.reverse)
 
+/-- an earlier request of a coordinator reaches its target (again) now: an HTTP retry, or a coordinator
+that was stalled between reading and sending -/
+def Sys.redeliver (s : Sys) (c : Call) : Sys × List String :=
+  let st : RS := { sys := s, n := 0, faults := [], choices := [], crashed := false, trace := [], issued := [] }
+  let r := st.deliver "late" c
+  (r.1.sys, r.1.trace.reverse)
+
 end Um.Coord
